@@ -28,6 +28,8 @@ struct Family {
     std::function<void(uint64_t, CaseOut &)> run;
 };
 
+static std::map<std::string, std::string> g_extra;   // extra result fields a harness wants in its JSON (e.g. digests the check driver compares across legs)
+
 struct Violation { std::string kind, sig, detail, family, input_hex; uint64_t index = 0, count = 1; int signo = 0; };
 
 struct FamStats { std::string name, describe; uint64_t units = 0, count = 0, evaluated = 0, skipped = 0, nontrivial = 0, bad = 0, deaths = 0; bool complete = true; double wall_s = 0; };
@@ -158,6 +160,7 @@ static inline int run_main(int argc, char **argv, const char *property, std::vec
             vu::J ra = vu::J::arr(); ra.push("--replay-case"); ra.push(v.family + ":" + std::to_string(v.index)); x.set("replay_args", ra); x.set("input_hex", v.input_hex); x.set("count", (long long)v.count); x.set("signo", v.signo);
             vu::J ops = vu::J::arr(); ops.push(v.family + ":" + std::to_string(v.index)); x.set("ops", ops); vj.push(x); }
         j.set("violations", vj);
+        { vu::J ex = vu::J::obj(); for(auto &kv : g_extra) ex.set(kv.first, kv.second); j.set("extra", ex); }
         j.set("wall_s", vu::now_s() - t0);
         std::string out = a.out; if(!out.empty() && out[0] != '/') out = cwd0 + "/" + out;
         if(!out.empty()) vu::write_file(out, j.str()); else printf("%s\n", j.str().c_str());
